@@ -1,1 +1,20 @@
--- stub: no theorems of C09 yet
+import WmModel.Props.C09
+import WmModel.Props.C09Tie
+#print axioms Wm.Chain.wrap_eq_compose
+#print axioms Wm.Chain.chain_trace
+#print axioms Wm.Chain.enter_mem_iff
+#print axioms Wm.Chain.leave_mem_iff
+#print axioms Wm.Chain.own_and_router_level_run
+#print axioms Wm.Chain.no_foreign_middleware
+#print axioms Wm.Chain.decoratePublisher_eq_compose
+#print axioms Wm.Chain.decorateSubscriber_eq_compose
+#print axioms Wm.Chain.pub_decorators_in_order
+#print axioms Wm.Chain.sub_decorators_in_order
+#print axioms Wm.Chain.msg_trace_spec
+#print axioms Wm.Chain.exec_regs
+#print axioms Wm.Chain.started_frozen
+#print axioms Wm.Chain.program_chain_trace
+#print axioms Wm.ChainGo.extracted_filter_eq_model
+#print axioms Wm.ChainGo.extracted_wrap_loop_eq_model
+#print axioms Wm.ChainGo.extracted_pubdec_loop_eq_model
+#print axioms Wm.ChainGo.extracted_subdec_loop_eq_model
